@@ -372,7 +372,7 @@ def r14_6_get_attribute_guarded(ctx, rid='R14.6', transforms=False):
 YAML_INT_FLOAT_NOTE = 'PyYAML accepts 0x1F, 0b1, 0o17/017, 1_000, 1:30 as int and .inf/.nan as float; int()/float() do not'
 
 
-def r14_9_get_value_text(ctx, rid='R14.9'):
+def r14_9_get_value_text(ctx, rid='R14.9', dump_side=True):
     P = ctx.P
     r = ctx.rule(rid, 'get_value() returns what a load would construct: numeric node text is not converted with bare int()/float()',
                  floor=2)
@@ -380,7 +380,7 @@ def r14_9_get_value_text(ctx, rid='R14.9'):
     for n, kind in _esc_sites(g):
         r.fail(g.key('bare-%s-on-node-text' % kind), g.loc(n), 'get_value converts node text with %s(): %s' % (kind, YAML_INT_FLOAT_NOTE))
     m = fn(P, NODE + 'remove_attributes_with_default_values.matches')
-    for n, kind in _esc_sites(m):
+    for n, kind in (_esc_sites(m) if dump_side else []):
         if m.fi.params[1] in {x.id for x in ast.walk(n.args[0]) if isinstance(x, ast.Name)} or kind != 'float':
             continue
         r.fail(m.key('bare-%s-on-node-text' % kind), m.loc(n), 'matches() converts node text with %s(): a float attribute holding '
@@ -446,6 +446,10 @@ def kind_known(f: Fn, call: ast.Call, recv: str, kind: str) -> bool:
     gs = f.guards(call)
     for k in kind.split('|'):
         if any(norm(g) == '%s.is_%s()' % (recv, k) and p for g, p in gs):
+            return True
+        # a successful has_attribute() on the same receiver has iterated over (key, value) pairs
+        if k == 'mapping' and any(isinstance(g, ast.Call) and call_name(g) == 'has_attribute' and norm(g.func.value) == recv and p
+                                   for g, p in gs):
             return True
         if known_instance(gs, recv + '.yaml_node', {cls[k]}):
             return True
@@ -637,7 +641,7 @@ def r16_1_purity(ctx, rid='R16.1', roots=None, what='require_*'):
     from ..effects import world, call_closure, direct_writes
     W = world(P)
     r = ctx.rule(rid, '%s never modify the node: the direct writes in their call closure (through Recognizer.recognize) touch '
-                      'only fresh wrapper objects' % what, floor=3)
+                      'only fresh wrapper objects' % what, floor=2)
     keys = roots or [fi.key for fi in P.yatiml_functions() if fi.key.startswith(UNK + 'require_')]
     fis = call_closure(W, keys)
     n = 0
@@ -790,4 +794,27 @@ def r16_3_decisions(ctx):
         for x in f.raises():
             r.check(S.raise_class(x) == 'RecognitionError', '%s raises RecognitionError' % name, f.key('raise-class:%s' % S.raise_class(x)),
                     f.loc(x), '%s raises %s' % (name, S.raise_class(x)))
+    r.done()
+
+
+def r14_10_get_value_typestate(ctx, rid='R14.10'):
+    P = ctx.P
+    r = ctx.rule(rid, 'X.get_value() is called only after X.is_scalar(<type>) was established on the same receiver (get_value '
+                      'raises for other tags and converts text by the tag)', floor=3)
+    for fi in P.yatiml_functions():
+        f = None
+        for c in walk_function(fi.node):
+            if isinstance(c, ast.Call) and isinstance(c.func, ast.Attribute) and c.func.attr == 'get_value' and not c.args:
+                recv = norm(c.func.value)
+                if recv == 'self':
+                    continue
+                f = f or S.fn_of(fi)
+                if not f.live(c):
+                    continue
+                pos = S.branch_nodes(f, lambda a: any(p and isinstance(g, ast.Call) and call_name(g) == 'is_scalar' and g.args
+                                                      and norm(g.func.value) == recv for g, p in a))
+                ok = bool(pos) and f.cfg.must_pass(f.cfg.entry, f.nid(c), pos)
+                r.check(ok, '%s: %s.get_value() after %s.is_scalar(T)' % (fi.qual, recv, recv), '%s:get_value-typestate:%s' % (fi.key, recv),
+                        fi.loc(c), '%s.get_value() is reached without %s.is_scalar(<type>) having been established: for an int/float/'
+                        'timestamp/collection node it raises ValueError/RuntimeError instead of the documented error' % (recv, recv))
     r.done()
